@@ -165,6 +165,19 @@ def faults2_batch(acc, batch):
                         followups(acc, w2, base, case, meta, init_hash_names)
 
 
+_EXPECTED_CACHE = {}
+
+
+def in_run_expected(base):
+    """Names an undisturbed `gwf run` submits from this state (memoised per state)."""
+    k = W.sha1(json.dumps([base.semantic(), sorted(base.sim["jobs"]), base.wf.key()], sort_keys=True, default=str))
+    if k not in _EXPECTED_CACHE:
+        with W.Session(base.copy()) as s:
+            s.gwf(["run"])
+            _EXPECTED_CACHE[k] = {e["name"] for e in s.sim.journal_submits()}
+    return _EXPECTED_CACHE[k]
+
+
 def record_calls_tolerant(world):
     with W.Session(world) as s:
         s.gwf(["run"])
@@ -203,6 +216,21 @@ def faults_batch(acc, batch):
                                   msg=f"[{meta['wf']}/{meta['backend']}/{meta['init']}] {exe} #{idx} failing with {kind}: the run went on and submitted {in_run} although {sorted(active_base)} are still in flight")
                 w1.sim["faults"] = {}
                 w1.normalize()
+                # what the interrupted run did submit must itself be in order: every job names the accepted, still active jobs of its direct
+                # dependencies (a run that carries on after a rejected submission sends dependents with stale or missing prerequisites)
+                c07.annotate(base, w1)
+                for jid in w1.sim["order"]:
+                    j = w1.sim["jobs"][jid]
+                    if jid in base.sim["jobs"] or j["user"] != "me":
+                        continue
+                    ids, wellformed = c07.spec_ids(w1.sim, j)
+                    deps_of = {t.name: {d.name for d in w1.wf.targets if set(d.flat("outputs")) & set(t.flat("inputs"))} for t in w1.wf.targets}
+                    accepted_now = {w1.sim["jobs"][x]["name"] for x in w1.sim["order"] if x not in base.sim["jobs"] and w1.sim["jobs"][x]["user"] == "me"}
+                    unmet = sorted(d for d in deps_of.get(j["name"], ()) if d in in_run_expected(base) and d not in accepted_now and d not in active_base)
+                    if sorted(ids) != sorted(j["must_wait"]) or not wellformed or unmet:
+                        acc.violation(sig=dict(what="the interrupted run submitted a job with wrong prerequisites or ahead of a dependency that was not accepted", backend=meta["backend"], kind="fault", exe=exe, fault=kind),
+                                      case=dict(meta=meta, **case), observed=dict(job=j["name"], argv=j["argv"], must_wait=j["must_wait"], named=ids, dependencies_not_accepted=unmet),
+                                      msg=f"[{meta['wf']}/{meta['backend']}/{meta['init']}] {exe} #{idx} failing with {kind}: job {j['name']} submitted with {j['argv']}; must wait for {j['must_wait']}; dependencies this run should have submitted first but that were not accepted: {unmet}")
                 acc.case(key=json.dumps(dict(meta=meta, **case), sort_keys=True), outcome=f"fault {exe} {kind} exit={r.exit_code} crash={r.crashed()}", sample=dict(meta=meta, **case))
                 followups(acc, w1, base, case, meta, init_hash_names)
         # an exception at a file-system write: the k-th file gwf opens for writing during the run (state files, the script
